@@ -6,6 +6,28 @@ PROPS = ['C%02d' % i for i in range(1, 21)]
 BASELINE = "cd /repo && /venv/bin/python -m pytest -ra -q -p no:cacheprovider --timeout=900 --continue-on-collection-errors"
 
 CLAIMED = {
+ 'C16': dict(
+    category='proof',
+    text="Rocq theorems. (a) Renumbering: Perm.line_renumber / C16_renumber_<y> - for every money line whose body is the aggregation "
+         "shape sum([v[f'<form>:{n}.<box>'] for n in range(i[<count>])]) (plain, guarded by count > 0, or under float()), for ANY count "
+         "and ANY permutation of the copy numbers, the catalogue interpreter stores the identical value in the two stores (induction over "
+         "the copies inside the interpreter: s1_eval; qsum_perm). Covers 1040 lines 25a, 2a and 8959/8995 totals; the other ~24 "
+         "aggregating lines per year (helper functions, conditional sums) are listed in the evidence and left to the search. "
+         "(b) Unit slope: C16_slope_<y> - in the catalogue model, two stores that agree on 1040 lines 24, 25b, 25c, 26, 32 and differ by d "
+         "on 25a differ by exactly d on (34 - 37); C16_shift_dollars: rounding to cents commutes with adding whole dollars. "
+         "(c) Monotone: Mono.dir_sound / top_dir_sound - a direction analysis of the arithmetic reading of a line is sound for every "
+         "pair of stores (rounding is monotone; `0 if a > b else b - a` is recognised as a floor); C16_chain_<y>_<k>: nine chains per year "
+         "(wages -> total income -> AGI -> taxable income up; tax -> total tax up; deduction -> taxable income down; credit -> total "
+         "tax down; withholding -> payments up; medical / real-estate / cash gifts -> Schedule A up; AGI -> medical deduction down), "
+         "exact, no tolerance; C16_tax_monotone_<y>: the regenerated figure_tax is monotone for every status and income. "
+         "Search: metamorphic pairs of REAL solved returns - all permutations of up to 3 copies of each of six forms, increments of a wage "
+         "box, of each Schedule A amount, of each withholding box - thousands of pairs per thorough run.",
+    design_ref='DESIGN.md §4 C16',
+    note="The end-to-end statements (more wages never lower TOTAL tax, a larger expense never raises it) are proved only along chains that "
+         "hold the other lines fixed; lines defined by helper functions (1040 lines 12, 13, 16, 19, Schedule A 5a/5e ...) are crossed only "
+         "by the real-run pairs. The proved list is frozen in oracles/c16_theorems.json. Print Assumptions: closed under the global context.",
+    technique='Rocq proofs (induction over the interpreter for the aggregation shape, sound direction analysis, rounding lemmas, lra) + metamorphic real-run pairs',
+ ),
  'C15': dict(
     category='proof',
     text="Rocq theorems generated per year over the regenerated catalogue model: C15_fed_balance_<y> - for EVERY store on which Form 1040 lines "
